@@ -1,9 +1,192 @@
-// Package c02: check for property C02 (stub until implemented).
+// Package c02: threshold EdDSA signing yields one valid standard Ed25519 signature (NETMC + ENUM of configurations).
 package c02
 
-import "verif/internal/core"
+import (
+	"fmt"
+	"math/big"
+	"runtime"
+	"sync"
 
-// Implemented reports whether this check is built.
-const Implemented = false
+	"github.com/bnb-chain/tss-lib/v2/common"
+	edkg "github.com/bnb-chain/tss-lib/v2/eddsa/keygen"
 
-func Run(r *core.Run) { r.Cap("not implemented") }
+	"verif/internal/core"
+	"verif/internal/fix"
+	"verif/internal/netrun"
+	"verif/internal/oracle"
+	"verif/internal/protomc"
+	"verif/internal/scen"
+)
+
+const Implemented = true
+
+type msgCase struct {
+	name string
+	m    *big.Int
+	full int
+}
+
+func messages() []msgCase {
+	g32 := core.Bytes("c02-msg32", 32)
+	g32[0] |= 0x80
+	z32 := core.Bytes("c02-msg32z", 32)
+	z32[0] = 0
+	g64 := core.Bytes("c02-msg64", 64)
+	g64[0] |= 0x01
+	return []msgCase{
+		{"zero(empty encoding)", big.NewInt(0), 0},
+		{"one", big.NewInt(1), 0},
+		{"2^8,len=2", big.NewInt(256), 2},
+		{"one,len=32(31 leading zeros)", big.NewInt(1), 32},
+		{"32-byte generic", new(big.Int).SetBytes(g32), 0},
+		{"32-byte top byte 0, no length", new(big.Int).SetBytes(z32), 0},
+		{"32-byte top byte 0, len=32", new(big.Int).SetBytes(z32), 32},
+		{"64-byte generic", new(big.Int).SetBytes(g64), 0},
+		{"64-byte generic,len=64", new(big.Int).SetBytes(g64), 64},
+	}
+}
+
+type keyCase struct {
+	name string
+	keys []edkg.LocalPartySaveData
+	t    int
+}
+
+func subsetsAtLeast(n, k int) [][]int {
+	var out [][]int
+	for sz := k; sz <= n; sz++ {
+		out = append(out, oracle.Subsets(n, sz)...)
+	}
+	return out
+}
+
+func Run(r *core.Run) {
+	w := runtime.NumCPU()
+	maxN := 4
+	if r.Tier == "thorough" {
+		maxN = 5
+	}
+	var kcs []keyCase
+	for n := 2; n <= maxN; n++ {
+		for t := 1; t < n; t++ {
+			pat := []string{"small", "near-q", "large"}[(n+t)%3]
+			kcs = append(kcs, keyCase{fmt.Sprintf("generated(n=%d,t=%d,ids=%s)", n, t, pat), scen.EdKey(pat, n, t, r.Seed), t})
+		}
+	}
+	kcs = append(kcs, keyCase{"vendored(n=5,t=2)", fix.EdFixtures(), 2})
+	msgs := messages()
+
+	// (1) the full product (key x signer subset x message) on the FIFO schedule
+	type fc struct {
+		kc     keyCase
+		sub    []int
+		mc     msgCase
+		order  []int
+	}
+	var cases []fc
+	for _, kc := range kcs {
+		subs := subsetsAtLeast(len(kc.keys), kc.t+1)
+		for si, sub := range subs {
+			for mi, mc := range msgs {
+				var order []int
+				if (si+mi)%3 == 1 { // ids handed over in reverse order
+					for i := len(sub) - 1; i >= 0; i-- {
+						order = append(order, i)
+					}
+				}
+				cases = append(cases, fc{kc, sub, mc, order})
+			}
+		}
+	}
+	var mu sync.Mutex
+	core.ParallelFor(len(cases), w, func(i int) {
+		c := cases[i]
+		keys := make([]edkg.LocalPartySaveData, len(c.sub))
+		for k, s := range c.sub {
+			keys[k] = c.kc.keys[s]
+		}
+		cfg := netrun.Config{Proto: netrun.EddsaSigning, EdKeys: keys, Threshold: c.kc.t, Msg: c.mc.m, FullBytesLen: c.mc.full, Seed: r.Seed, Label: fmt.Sprint(c.kc.name, c.sub), IDOrder: c.order}
+		nw, err := netrun.New(cfg)
+		name := fmt.Sprintf("%s/signers=%v/msg=%s", c.kc.name, c.sub, c.mc.name)
+		if err != nil {
+			r.Violate("fifo/constructor-error", err.Error(), name)
+			return
+		}
+		_, e, pan := nw.RunFIFO()
+		r.Count("fifo_runs", 1)
+		cls := fmt.Sprintf("%s|size=%d|t=%d|%s", c.kc.name, len(c.sub), c.kc.t, c.mc.name)
+		r.Distinct("fifo_case_classes", cls)
+		if len(pan) > 0 {
+			r.Violate("fifo/panic/msg="+c.mc.name, pan[0], name)
+			return
+		}
+		if e != nil {
+			r.Violate("fifo/error/msg="+c.mc.name, e.Error(), name)
+			return
+		}
+		var first *common.SignatureData
+		for p, n := range nw.Nodes {
+			if len(n.Ends) != 1 {
+				r.Violate("fifo/no-result/msg="+c.mc.name, fmt.Sprintf("node %d has %d results", p, len(n.Ends)), name)
+				return
+			}
+			sd := n.Ends[0].(*common.SignatureData)
+			if first == nil {
+				first = sd
+			} else if string(first.Signature) != string(sd.Signature) {
+				r.Violate("fifo/signers-disagree", "signers output different signatures", name)
+			}
+			for _, pr := range oracle.CheckEddsaSig(sd, keys[0].EDDSAPub, c.mc.m, c.mc.full) {
+				r.Violate("fifo/"+pr.Key+"/msg="+c.mc.name, pr.What, name)
+			}
+		}
+		mu.Lock()
+		r.Sample(3, map[string]interface{}{"kind": "fifo case", "case": name, "signature": fmt.Sprintf("%x", first.Signature)})
+		mu.Unlock()
+	})
+
+	// (2) schedules: all schedules for 2 and 3 signers (decomposed), FIFO + 1 deviation for 4 and 5
+	var states, trans, traces int
+	si := 0
+	for _, kc := range kcs {
+		for _, sub := range subsetsAtLeast(len(kc.keys), kc.t+1) {
+			if len(sub) > 3 && r.Tier == "quick" && (len(sub) != len(kc.keys) || len(sub) > 4) {
+				continue // quick: 4 signers only as the full committee; 5 signers in thorough
+			}
+			mc := msgs[si%len(msgs)]
+			si++
+			keys := make([]edkg.LocalPartySaveData, len(sub))
+			for k, s := range sub {
+				keys[k] = kc.keys[s]
+			}
+			sc := protomc.Scenario{Name: fmt.Sprintf("eddsa-signing/%s/signers=%v/msg=%s", kc.name, sub, mc.name),
+				Cfg: netrun.Config{Proto: netrun.EddsaSigning, EdKeys: keys, Threshold: kc.t, Msg: mc.m, FullBytesLen: mc.full, Seed: r.Seed, Label: fmt.Sprint(kc.name, sub)}}
+			opt := protomc.Options{C07: true, Workers: w, JointValidate: 6, ResultOracle: scen.ResultOracle(sc)}
+			mode := "all schedules"
+			if len(sub) > 3 {
+				opt.Mode, opt.Deviations = "dev", 1
+				mode = "FIFO + every 1-deviation run"
+			}
+			st := protomc.Explore(r, sc, opt)
+			states += st.States
+			trans += st.Transitions
+			traces += st.JointReplays
+			r.Count("schedule_explorations", 1)
+			r.Distinct("terminal_outcomes", fmt.Sprintf("%s#%d", sc.Name, st.DistinctOutcomes))
+			if len(sub) == 3 && len(st.Samples) > 0 {
+				r.Sample(5, st.Samples[len(st.Samples)-1])
+			}
+			if st.Capped {
+				r.Cap("cap in " + sc.Name)
+			}
+			_ = mode
+		}
+	}
+	r.Set("states", states)
+	r.Set("transitions", trans)
+	r.Set("traces_validated_against_impl", traces)
+	r.Set("fifo_product", "every key x every signer subset of size >= t+1 x every message of the alphabet (ids handed over reversed in a third of the cases)")
+	r.Set("schedule_part", "all delivery schedules (decomposed search) for 2 and 3 signers, FIFO + every 1-deviation complete run for 4 and 5 signers; one message of the alphabet per subset, rotating")
+	r.Assume("standard verifier = Go crypto/ed25519 over the reference RFC 8032 encoding of EDDSAPub, plus the reference verification equation")
+	r.Assume("party independence validated by joint replays (traces_validated_against_impl)")
+}
